@@ -9,7 +9,7 @@ Lemma step_sel sess me alt nd a res :
   AInv sess a ->
   thread_step me RSel alt nd a (get_thr a RSel) = res ->
   match res with
-  | Ok (nd', a', t') => AInv sess (set_thr a' RSel t') /\ node_frame nd nd'
+  | Ok (nd', a', t') => (AInv sess (set_thr a' RSel t') /\ delta me RSel a nd nd' (set_thr a' RSel t')) /\ node_frame nd nd'
   | Blocked => True
   | Panic site => cclosed (n_pcd nd) = true /\ site = "send on closed channel"%string
   end.
